@@ -294,7 +294,9 @@ fn enumerated_fault(idx: u64) -> Option<(&'static str, u64)> {
     None
 }
 
-fn fault_space(len: u64) -> u64 { 5 + len + len * 8 + len }
+const APPENDS: &[&str] = &["]", " x", "\n[[1,2,2,1]]", ",[5,2,6,3]]", "\u{0}", "\n"];
+
+fn fault_space(len: u64) -> u64 { 5 + len + len * 8 + len + APPENDS.len() as u64 + RESOURCE_NAMES.len() as u64 }
 
 fn nth_fault(content: &str, k: u64) -> DiskFaultKind {
     let len = content.len() as u64;
@@ -306,7 +308,13 @@ fn nth_fault(content: &str, k: u64) -> DiskFaultKind {
         4 => DiskFaultKind::Empty,
         k if k < 5 + len => DiskFaultKind::ShortRead((k - 5) as usize),
         k if k < 5 + len + len * 8 => { let q = k - 5 - len; DiskFaultKind::BitFlip { byte: (q / 8) as usize, bit: (q % 8) as u8 } }
-        k => DiskFaultKind::InvalidUtf8((k - 5 - len - len * 8) as usize),
+        k if k < 5 + len + len * 8 + len => DiskFaultKind::InvalidUtf8((k - 5 - len - len * 8) as usize),
+        k if k < 5 + len + len * 8 + len + APPENDS.len() as u64 => DiskFaultKind::Append(APPENDS[(k - 5 - len - len * 8 - len) as usize].as_bytes().to_vec()),
+        k => {
+            // torn rewrite with the content of another stored diagram
+            let other = RESOURCE_NAMES[(k - 5 - len - len * 8 - len - APPENDS.len() as u64) as usize % RESOURCE_NAMES.len()];
+            DiskFaultKind::TornOverwrite(std::fs::read(resource_path(other)).expect("resource table present"))
+        }
     }
 }
 
@@ -324,6 +332,8 @@ fn fault_to_json(k: &DiskFaultKind) -> Value {
         DiskFaultKind::ShortRead(n) => json!(["ShortRead", n]),
         DiskFaultKind::BitFlip { byte, bit } => json!(["BitFlip", byte, bit]),
         DiskFaultKind::InvalidUtf8(n) => json!(["InvalidUtf8", n]),
+        DiskFaultKind::Append(b) => json!(["Append", String::from_utf8_lossy(b)]),
+        DiskFaultKind::TornOverwrite(b) => json!(["TornOverwrite", String::from_utf8_lossy(b)]),
     }
 }
 
@@ -337,6 +347,8 @@ fn fault_from_json(v: &Value) -> DiskFaultKind {
         "Empty" => DiskFaultKind::Empty,
         "ShortRead" => DiskFaultKind::ShortRead(n(1)),
         "BitFlip" => DiskFaultKind::BitFlip { byte: n(1), bit: n(2) as u8 },
+        "Append" => DiskFaultKind::Append(v[1].as_str().unwrap().as_bytes().to_vec()),
+        "TornOverwrite" => DiskFaultKind::TornOverwrite(v[1].as_str().unwrap().as_bytes().to_vec()),
         _ => DiskFaultKind::InvalidUtf8(n(1)),
     }
 }
@@ -353,7 +365,7 @@ impl Check for C20 {
     fn id(&self) -> &'static str { "C20" }
     fn level(&self) -> &'static str { "fault_enumeration" }
     fn rule(&self) -> String {
-        "one run = one command line {kh,ckh} x -t {Z,Q,F2,F3,(default),Gauss} x -c {0,1,2,3,'1,1','0,1',H,'0,T','H,T',garbage} x -m x -r x link {table name (file read on the simulated disk), PD JSON, path on the simulated disk, unknown name, malformed / unpaired PD text}, executed in-process through App::verif_run on the simulated substrate (workers, schedule, hash seeds drawn). Faults: the first runs ENUMERATE the disk-fault space of two stored files completely (ENOENT, EACCES, EIO, EINTR-then-ok, empty, short read at every byte offset, flip of every bit, invalid UTF-8 at every offset); later runs sample it for other files and inject panics at the n-th task start / n-th lock acquisition (lock held => poisoning). Oracle: supported combination on a valid diagram (judged by an own PD reader on the bytes actually delivered) => Ok and the parsed table has exactly the non-zero cells of the library's own answer computed in a fault-free twin execution, with equal rank and torsion; otherwise => Err. distinct = distinct event-log digests; non-trivial = a fault fired or the command reached the computation".into()
+        "one run = one command line {kh,ckh} x -t {Z,Q,F2,F3,(default),Gauss} x -c {0,1,2,3,'1,1','0,1',H,'0,T','H,T',garbage} x -m x -r x link {table name (file read on the simulated disk), PD JSON, path on the simulated disk, unknown name, malformed / unpaired PD text}, executed in-process through App::verif_run on the simulated substrate (workers, schedule, hash seeds drawn). Faults: the first runs ENUMERATE the disk-fault space of two stored files completely (ENOENT, EACCES, EIO, EINTR-then-ok, empty, short read at every byte offset, flip of every bit, invalid UTF-8 at every offset, six kinds of trailing bytes, torn rewrite with every other stored diagram); later runs sample it for other files and inject panics at the n-th task start / n-th lock acquisition (lock held => poisoning). Oracle: supported combination on a valid diagram (judged by an own PD reader on the bytes actually delivered) => Ok and the parsed table has exactly the non-zero cells of the library's own answer computed in a fault-free twin execution, with equal rank and torsion; otherwise => Err. distinct = distinct event-log digests; non-trivial = a fault fired or the command reached the computation".into()
     }
     fn assumptions(&self) -> Vec<String> {
         vec![
@@ -364,7 +376,7 @@ impl Check for C20 {
         ]
     }
     fn required_probes(&self) -> Vec<&'static str> {
-        vec!["tables_compared", "errors_expected_and_reported", "disk:BitFlip", "disk:ShortRead", "panic", "ckh_tables_checked"]
+        vec!["tables_compared", "errors_expected_and_reported", "disk:BitFlip", "disk:ShortRead", "disk:Append", "disk:TornOverwrite", "panic", "ckh_tables_checked"]
     }
     fn max_steps(&self) -> usize { 20_000_000 }
     fn runs(&self, tier: &str) -> u64 { if tier == "quick" { 30_000 } else { 2_000_000 } }
